@@ -37,9 +37,25 @@ def zero_run_curve(rng, n):
     return 'zero_run', [[float(x), float(max(0.0, y))] for x, y in zip(xs, ys)]
 
 
+def jagged_curve(rng, n):
+    """non-monotone small-integer curve with large swings on unit x: interior points project past the chord ends, so the
+    shortest (segment) distance and the perpendicular (line) distance rank the points differently (added by the coordinator
+    after seeded change C04-m1: a split taken under the wrong distance is only visible on such shapes)"""
+    hi = rng.choice([6, 10, 25])
+    xs = [float(i) for i in range(n)]
+    ys = [float(rng.randint(0, hi)) for _ in range(n)]
+    if rng.random() < 0.5 and n >= 4:          # a rise followed by a collapse: the far point lies beyond the chord end
+        k = rng.randint(1, n - 2)
+        ys = sorted(ys[:k + 1]) + sorted(ys[k + 1:], reverse=True)
+    return 'jagged', [[x, y] for x, y in zip(xs, ys)]
+
+
 def make_curve(rng, n):
-    if rng.random() < 0.15:
+    u = rng.random()
+    if u < 0.15:
         return zero_run_curve(rng, n)
+    if u < 0.40:
+        return jagged_curve(rng, n)
     return gen.curve(rng, n)
 
 
@@ -274,16 +290,18 @@ class C04:
             orc.complete()
         orc.closure(c['t'])
         mism = 0
+        # The tables always hold what the CONFIGURED public primitive returns on the sub-array (direct evaluation).  Values the
+        # implementation was observed to compute are only used to learn which keys it touched; if one differs from the direct
+        # evaluation (the implementation used another distance / cost than the selected one) it is counted, never copied into
+        # the table — the judge then sees the implementation's output against the selected primitives (seeded change C04-m1).
         for k, v in (touched_d or {}).items():
             w = orc.dist(*k)
             if w is None or len(w) != len(v) or not all(fsame(a, b) for a, b in zip(v, w)):
                 mism += 1
-                orc.dt[k] = v
         for k, v in (touched_c or {}).items():
             w = orc.cost(*k)
             if w is None or not fsame(v, w):
                 mism += 1
-                orc.ct[k] = v
         red = (c.get('out') or [None])[0]
         if red:
             for a, b in zip(red, red[1:]):
